@@ -31,7 +31,7 @@ pub const DEF: CheckDef = CheckDef {
     id: "C16",
     run,
     technique: "deviation-bounded exhaustive enumeration of import configurations (all configurations with <= d non-default dimensions out of 13) x exhaustive enumeration of all statements of <= n rows over a configuration-dependent row alphabet x all same-day/next-day date patterns; each case is imported by the real code as a tree (import::import + Txn::to_double_entry) and as text (ImportCmd::run on real files), both compared posting by posting with a reference importer in exact rational arithmetic; for asset accounts with a running-balance column the printed text behind an opening transaction is run through report::process",
-    rule: "case = (configuration, statement). Configuration dimensions (default first): layout {index,label,template '{N}'} x delimiter {',',tab,';'} x skip.head {0,2} x date format {%Y/%m/%d,%Y-%m-%d,%d.%m.%Y} x value columns {amount, credit+debit} x commodity column {absent,present} x running-balance column {present,absent} x note column {absent,present} x charge column {absent,present} x account-level default conversion {none (no secondary_commodity column), rate/secondary_amount/secondary_commodity columns with no commodity.conversion (built-in price_of_secondary/extract), price_of_secondary/compute, price_of_primary/extract, price_of_primary/compute, disabled: true, built-in modes + `commodity: GBP` (a commodity no statement cell shows)} x rewrite-rule conversion on payee ^xfer {no rule, price_of_secondary/compute, price_of_primary/extract, disabled: true, price_of_primary/extract + `commodity: GBP`; the rule names the commodity itself when there is no secondary_commodity column} x account type {asset, liability} x row_order {old_to_new,new_to_old} (row_order is dimension 11, the rule dimension 12); ALL configurations with <= 2 (thorough <= 3) non-default dimensions. Statement: ALL sequences of <= 3 rows (thorough: <= 4 rows for configurations with <= 1 non-default dimension) over the alphabet {credit, debit, zero} + per present column {debit with empty balance cell, debit with a wrong balance; credit/debit in the other currency; credit/debit rows carrying the secondary cells (decided by the account default); credit/debit rows carrying the secondary cells AND matched by the rule (decided by the rule, over the default if any); a matched debit without secondary cells when the rule disables conversion; a matched conversion debit whose secondary-commodity cell is empty when the rule names the commodity; an unmatched debit with cells when there is no default; credit/debit with a charge; other-currency conversion debit; conversion debit with a charge} x EVERY assignment of same-day/next-day to rows 2..n; rows are written newest first when row_order=new_to_old. PLUS date-less lines: for every configuration with <= 1 non-default dimension, and with 2 when one of them is row_order=new_to_old (thorough: every configuration with <= 2), ALL statements over {credit, debit} of the same length bound x all date patterns x ALL placements of one date-less line (all cells empty | only the payee cell filled) at any of the n+1 file positions, or two (empty then payee-only) at any positions g1 <= g2; such lines must produce no transaction and leave every dated row imported, oldest first, with the end-to-end clause unchanged. PLUS nested configuration fragments: for every configuration with <= 1 non-default dimension (thorough <= 2) the same configuration written as 2 documents (ALL 3^4 assignments of {outer, inner, both} to account_type, commodity, account, format; where both set it the outer carries a wrong value) and as 3 documents (all assignments of the 7 non-empty level sets in which <= 1 (thorough <= 2) attribute differs from innermost-only), always preceded by a non-matching document of wrong values, documents listed most specific first x every one-row statement of the alphabet. PLUS rewrite-rule lists: ALL lists of 2 rules over matcher {^xfer, ^nomatch} x conversion {unset, sec/compute, pri/extract, disabled} x account {unset, set} (256) and ALL lists of 3 rules over matcher x conversion (512), with no account default and with the built-in one (thorough: all 7 defaults) x 4 statements of matched / unmatched rows carrying the secondary cells; the conversion in force is that of the last matching rule that sets one. PLUS charge value classes: for every configuration of the main enumeration that has the charge column, ALL statements of <= 2 rows x date patterns over {credit, debit} x charge cell {empty, 2.50, -0.50 (refund), 0.00, -0.00} x {without, with conversion cells (where the columns exist)}; a zero cell is no charge, a negative charge nets the counter-posting like a positive one. states = cases, transitions = transactions compared with RefImport (tree + text), validated = cases in which every judged value had exactly one acceptable answer",
+    rule: "case = (configuration, statement). Configuration dimensions (default first): layout {index,label,template '{N}'} x delimiter {',',tab,';'} x skip.head {0,2} x date format {%Y/%m/%d,%Y-%m-%d,%d.%m.%Y} x value columns {amount, credit+debit} x commodity column {absent,present} x running-balance column {present,absent} x note column {absent,present} x charge column {absent,present} x account-level default conversion {none (no secondary_commodity column), rate/secondary_amount/secondary_commodity columns with no commodity.conversion (built-in price_of_secondary/extract), price_of_secondary/compute, price_of_primary/extract, price_of_primary/compute, disabled: true, built-in modes + `commodity: GBP` (a commodity no statement cell shows)} x rewrite-rule conversion on payee ^xfer {no rule, price_of_secondary/compute, price_of_primary/extract, disabled: true, price_of_primary/extract + `commodity: GBP`; the rule names the commodity itself when there is no secondary_commodity column} x account type {asset, liability} x row_order {old_to_new,new_to_old} (row_order is dimension 11, the rule dimension 12); ALL configurations with <= 2 (thorough <= 3) non-default dimensions. Statement: ALL sequences of <= 3 rows (thorough: <= 4 rows for configurations with <= 1 non-default dimension) over the alphabet {credit, debit, zero} + per present column {debit with empty balance cell, debit with a wrong balance; credit/debit in the other currency; credit/debit rows carrying the secondary cells (decided by the account default); credit/debit rows carrying the secondary cells AND matched by the rule (decided by the rule, over the default if any); a matched debit without secondary cells when the rule disables conversion; a matched conversion debit whose secondary-commodity cell is empty when the rule names the commodity; an unmatched debit with cells when there is no default; credit/debit with a charge; other-currency conversion debit; conversion debit with a charge} x EVERY assignment of same-day/next-day to rows 2..n; rows are written newest first when row_order=new_to_old. PLUS date-less lines: for every configuration with <= 1 non-default dimension, and with 2 when one of them is row_order=new_to_old (thorough: every configuration with <= 2), ALL statements over {credit, debit} of the same length bound x all date patterns x ALL placements of one date-less line (all cells empty | only the payee cell filled) at any of the n+1 file positions, or two (empty then payee-only) at any positions g1 <= g2; such lines must produce no transaction and leave every dated row imported, oldest first, with the end-to-end clause unchanged. PLUS nested configuration fragments: for every configuration with <= 1 non-default dimension (thorough <= 2) the same configuration written as 2 documents (ALL 3^4 assignments of {outer, inner, both} to account_type, commodity, account, format; where both set it the outer carries a wrong value) and as 3 documents (all assignments of the 7 non-empty level sets in which <= 1 (thorough <= 2) attribute differs from innermost-only), always preceded by a non-matching document of wrong values, documents listed most specific first x every one-row statement of the alphabet. PLUS rewrite-rule lists: ALL lists of 2 rules over matcher {^xfer, ^nomatch} x conversion {unset, sec/compute, pri/extract, disabled} x account {unset, set} (256) and ALL lists of 3 rules over matcher x conversion (512), with no account default and with the built-in one (thorough: all 7 defaults) x 4 statements of matched / unmatched rows carrying the secondary cells; the conversion in force is that of the last matching rule that sets one. PLUS charge value classes: for every configuration of the main enumeration that has the charge column, ALL statements of <= 2 rows x date patterns over {credit, debit} x charge cell {empty, 2.50, -0.50 (refund), 0.00, -0.00} x {without, with conversion cells (where the columns exist)}; a zero cell is no charge, a negative charge nets the counter-posting like a positive one. PLUS statement preambles: skip.head = n in 0..3 x ALL sequences of n preamble lines over {text, blank, whitespace only, a line that looks like a data row} x layout {index, label} x row_order x 4 statements (every data row imported, nothing of the preamble). PLUS cell spellings: amount / credit / debit / balance / charge cells written as `-$5`, `$-5`, `USD -5`, `-5 USD` x {default, credit+debit, liability, charge column} x ALL statements of <= 2 rows over {credit, debit (, debit with charge, credit with negative charge)}. states = cases, transitions = transactions compared with RefImport (tree + text), validated = cases in which every judged value had exactly one acceptable answer",
     assumptions: &[
         "okane's ledger parser is trusted to read the printed text back (C05/C15 decide that); report::process is trusted as the book-keeping referee of the end-to-end clause (C01/C02 decide that)",
         "DON'T-CARE: the counter-posting value of a row with a non-zero charge when no statement-supplied secondary amount exists (either 'opposite amount' or 'opposite amount net of the charge' is accepted); existence and rate of the charge posting; the sign of the balance assertion for a liability account; order of postings inside a transaction; payee/account of the counter-posting",
@@ -115,6 +115,11 @@ struct Cfg {
     layer: Option<Layer>,
     /// a list of 2-3 rewrite rules instead of the single rule of dimension 12
     stack: Option<Stack>,
+    /// explicit statement preamble: `skip.head` = n and exactly n preamble lines of the given kinds
+    /// (0 text, 1 blank, 2 whitespace only, 3 a line that looks like a data row) before the header
+    preamble: Option<(u8, [u8; 3])>,
+    /// spelling of the amount-bearing cells: 0 `-7.25`, 1 `-$7.25`, 2 `$-7.25`, 3 `USD -7.25`, 4 `-7.25 USD`
+    style: u8,
 }
 
 /// The same effective configuration written as k = 2 or 3 documents whose `path`s all occur in the source path
@@ -152,7 +157,22 @@ impl Cfg {
         [',', '\t', ';'][self.choice[1] as usize]
     }
     fn skip(&self) -> usize {
+        if let Some((n, _)) = self.preamble {
+            return n as usize;
+        }
         [0, 2][self.choice[2] as usize]
+    }
+    /// spell a number of the statement (magnitude as printed, sign) in the configured style; the commodity shown in
+    /// the cell is decoration (the commodity comes from the configuration / commodity column)
+    fn spell(&self, neg: bool, mag: &str) -> String {
+        let m = if neg { "-" } else { "" };
+        match self.style {
+            0 => format!("{}{}", m, mag),
+            1 => format!("{}${}", m, mag),
+            2 => format!("${}{}", m, mag),
+            3 => format!("USD {}{}", m, mag),
+            _ => format!("{}{} USD", m, mag),
+        }
     }
     fn datefmt(&self) -> &'static str {
         ["%Y/%m/%d", "%Y-%m-%d", "%d.%m.%Y"][self.choice[3] as usize]
@@ -235,6 +255,12 @@ impl Cfg {
     fn describe(&self) -> String {
         let v: Vec<String> = self.choice.iter().enumerate().filter(|(_, c)| **c != 0).map(|(i, c)| if DIMS[i] == 2 { DIM_NAMES[i].to_string() } else if i == 9 { format!("default-conv={}", self.default_conv().unwrap().name()) } else if i == 12 { format!("rule-conv={}", self.rule_conv().unwrap().name()) } else { format!("{}={}", DIM_NAMES[i], c) }).collect();
         let mut v = v;
+        if let Some((n, k)) = &self.preamble {
+            v.push(format!("preamble[skip.head={} lines={:?}]", n, k[..*n as usize].iter().map(|x| ["text", "blank", "spaces", "csv-like"][*x as usize]).collect::<Vec<_>>()));
+        }
+        if self.style != 0 {
+            v.push(format!("cell-style={}", ["-5", "-$5", "$-5", "USD -5", "-5 USD"][self.style as usize]));
+        }
         if let Some(l) = &self.layer {
             let lv = |m: u8| -> String { (0..l.k).filter(|i| m >> i & 1 == 1).map(|i| i.to_string()).collect::<Vec<_>>().join("") };
             v.push(format!("{}-fragments[{}]", l.k, (0..4).map(|a| format!("{}@{}", LAYER_ATTRS[a], lv(l.masks[a]))).collect::<Vec<_>>().join(",")));
@@ -254,6 +280,8 @@ impl Cfg {
         match (self.layer.is_some(), self.stack.is_some()) {
             (true, _) => "+fragments",
             (_, true) => "+rule-list",
+            _ if self.preamble.is_some() => "+preamble",
+            _ if self.style != 0 => ["", "+cell:-$5", "+cell:$-5", "+cell:USD -5", "+cell:-5 USD"][self.style as usize],
             _ => "",
         }
     }
@@ -267,7 +295,7 @@ impl Cfg {
 fn configs(d: usize) -> Vec<Cfg> {
     fn rec(pos: usize, left: usize, cur: &mut [u8; 13], out: &mut Vec<Cfg>) {
         if pos == DIMS.len() {
-            out.push(Cfg { choice: *cur, layer: None, stack: None });
+            out.push(Cfg { choice: *cur, layer: None, stack: None, preamble: None, style: 0 });
             return;
         }
         cur[pos] = 0;
@@ -760,11 +788,11 @@ fn ref_import(cfg: &Cfg, letters: &[Letter], same: &[bool]) -> RefStatement {
         };
         let amount_cells: Vec<(&'static str, String)> = if cfg.crdr() {
             match l.kind {
-                Kind::Credit | Kind::Zero => vec![("credit", l.magnitude().to_string()), ("debit", String::new())],
-                Kind::Debit => vec![("credit", String::new()), ("debit", l.magnitude().to_string())],
+                Kind::Credit | Kind::Zero => vec![("credit", cfg.spell(false, l.magnitude())), ("debit", String::new())],
+                Kind::Debit => vec![("credit", String::new()), ("debit", cfg.spell(false, l.magnitude()))],
             }
         } else {
-            vec![("amount", if l.kind == Kind::Debit { format!("-{}", l.magnitude()) } else { l.magnitude().to_string() })]
+            vec![("amount", cfg.spell(l.kind == Kind::Debit, l.magnitude()))]
         };
         // STATEMENT: credit positive, debit negative; an `amount` column negated for a liability account
         let posting = if !cfg.crdr() && cfg.liability() { signed_cell.neg() } else { signed_cell };
@@ -930,7 +958,21 @@ fn csv_text(cfg: &Cfg, st: &RefStatement) -> String {
         }
     };
     let mut s = String::new();
-    if cfg.skip() > 0 {
+    if let Some((n, kinds)) = &cfg.preamble {
+        for k in &kinds[..*n as usize] {
+            match k {
+                0 => s.push_str("Exported by Okane Bank\n"),
+                1 => s.push('\n'),
+                2 => s.push_str("   \n"),
+                // a line that would import as a transaction if it were not skipped
+                _ => {
+                    let row: Vec<String> = cols.iter().map(|(key, _)| match *key { "date" => oka::date(2024, 1, 2).format(cfg.datefmt()).to_string(), "payee" | "-" | "note" => "preamble".to_string(), "commodity" => PRIMARY.to_string(), "amount" | "credit" | "balance" => "1.00".to_string(), _ => String::new() }).collect();
+                    s.push_str(&row.join(&d.to_string()));
+                    s.push('\n');
+                }
+            }
+        }
+    } else if cfg.skip() > 0 {
         s.push_str("Exported by Okane Bank\nperiod,2024-03\n");
     }
     let ds = d.to_string();
@@ -943,11 +985,11 @@ fn csv_text(cfg: &Cfg, st: &RefStatement) -> String {
                     "date" => r.date.format(cfg.datefmt()).to_string(),
                     "-" => format!("ref{}", r.id.len()),
                     "payee" => r.id.clone(),
-                    "balance" => r.balance_cell.map(money).unwrap_or_default(),
+                    "balance" => r.balance_cell.map(|b| cfg.spell(b.signum() < 0, &money(b.abs()))).unwrap_or_default(),
                     "amount" | "credit" | "debit" => r.amount_cells.iter().find(|(k, _)| k == key).map(|(_, v)| v.clone()).unwrap_or_default(),
                     "commodity" => r.ccy.clone(),
                     "note" => format!("memo {}", r.id),
-                    "charge" => r.fee_cell.clone(),
+                    "charge" => if r.fee_cell.is_empty() { String::new() } else { cfg.spell(r.fee_cell.starts_with('-'), r.fee_cell.trim_start_matches('-')) },
                     "rate" => r.conv_cells.as_ref().map(|c| c.0.clone()).unwrap_or_default(),
                     "secondary_amount" => r.conv_cells.as_ref().map(|c| c.1.clone()).unwrap_or_default(),
                     "secondary_commodity" => r.conv_cells.as_ref().map(|c| c.2.clone()).unwrap_or_default(),
@@ -1069,7 +1111,7 @@ const FEE_ACCOUNT: &str = "Expenses:Commissions";
 
 /// Compare the imported transactions (oldest first) with RefImport. `via` = "tree" | "text".
 fn judge(via: &str, cfg: &Cfg, st: &RefStatement, got: &[ObsTxn]) -> Result<(), (String, String)> {
-    let order = format!("{}{}", if cfg.new_to_old() { "new-to-old" } else { "old-to-new" }, if st.dateless.is_empty() { "" } else { "/dateless-row" });
+    let order = format!("{}{}{}", if cfg.new_to_old() { "new-to-old" } else { "old-to-new" }, cfg.family(), if st.dateless.is_empty() { "" } else { "/dateless-row" });
     if got.len() != st.rows.len() {
         return Err((format!("{}/row-count/{}", via, order), format!("{} rows in the statement, {} transactions imported", st.rows.len(), got.len())));
     }
@@ -1317,7 +1359,7 @@ fn run_case(cfg: &Cfg, _cfg_index: usize, entry: &icfg::ConfigEntry, files: &Fil
     // (1) tree
     let tree = match import_tree(entry, csv) {
         Ok(t) => t,
-        Err(e) => return Outcome::violation(format!("tree/import-failed/{}/{}", cfg.conv_name(), shape_all), format!("well-formed statement was not imported: {}", e)),
+        Err(e) => return Outcome::violation(format!("tree/import-failed/{}{}/{}", cfg.conv_name(), cfg.family(), shape_all), format!("well-formed statement was not imported: {}", e)),
     };
     *transitions += tree.len() as u64;
     if let Err((sig, detail)) = judge("tree", cfg, st, &tree) {
@@ -1326,7 +1368,7 @@ fn run_case(cfg: &Cfg, _cfg_index: usize, entry: &icfg::ConfigEntry, files: &Fil
     // (2) printed text through the command
     let text = match import_text(files, csv) {
         Ok(t) => t,
-        Err(e) => return Outcome::violation(format!("text/import-failed/{}/{}", cfg.conv_name(), shape_all), format!("ImportCmd failed on a statement the library imported: {}", e)),
+        Err(e) => return Outcome::violation(format!("text/import-failed/{}{}/{}", cfg.conv_name(), cfg.family(), shape_all), format!("ImportCmd failed on a statement the library imported: {}", e)),
     };
     let parsed = match parse_text(&text) {
         Ok(p) => p,
@@ -1564,7 +1606,7 @@ fn run(ctx: &mut Ctx) {
         for st in &stacks {
             let mut choice = [0u8; 13];
             choice[9] = dflt as u8;
-            let cfg = Cfg { choice, layer: None, stack: Some(*st) };
+            let cfg = Cfg { choice, layer: None, stack: Some(*st), preamble: None, style: 0 };
             let mut loaded = Loaded::new(next_id, &cfg);
             next_id += 1;
             for letters in &stack_statements {
@@ -1608,6 +1650,64 @@ fn run(ctx: &mut Ctx) {
             loaded.statement(ctx, &mut files, &letters, &same, &[]);
         }
     }
+    // ---- statement preambles: skip.head = n in 0..=3 x ALL sequences of n preamble lines over {text, blank, whitespace only,
+    //      data-like} x layout {index, label} x row_order x 4 statements
+    let mut total_preamble = 0u64;
+    let p0 = Letter { kind: Kind::Credit, other: false, bal: BalCell::Right, conv: false, fee: false, feek: 0, rule: false, noccy: false };
+    let p1 = Letter { kind: Kind::Debit, ..p0 };
+    let pre_statements: Vec<Vec<Letter>> = vec![vec![], vec![p0], vec![p1, p0], vec![p0, p1, p1]];
+    for layout in [0u8, 1] {
+        for order in [0u8, 1] {
+            for n in 0..=3u8 {
+                for w in 0..4u32.pow(n as u32) {
+                    let mut kinds = [0u8; 3];
+                    for i in 0..n as usize {
+                        kinds[i] = ((w >> (2 * i)) & 3) as u8;
+                    }
+                    let mut choice = [0u8; 13];
+                    choice[0] = layout;
+                    choice[11] = order;
+                    let cfg = Cfg { choice, layer: None, stack: None, preamble: Some((n, kinds)), style: 0 };
+                    let mut loaded = Loaded::new(next_id, &cfg);
+                    next_id += 1;
+                    for letters in &pre_statements {
+                        total_preamble += 1;
+                        let same = vec![false; letters.len()];
+                        loaded.statement(ctx, &mut files, letters, &same, &[]);
+                    }
+                }
+            }
+        }
+    }
+    // ---- spellings of the amount-bearing cells (amount / credit / debit / balance / charge): 4 styles x
+    //      {default, credit+debit, liability, charge column} x ALL statements of <= 2 rows over {credit, debit (, with +/- charge)}
+    let mut total_style = 0u64;
+    for style in 1..=4u8 {
+        for dim in [usize::MAX, 4, 10, 8] {
+            let mut choice = [0u8; 13];
+            if dim != usize::MAX {
+                choice[dim] = 1;
+            }
+            let cfg = Cfg { choice, layer: None, stack: None, preamble: None, style };
+            let mut alpha = vec![p0, p1];
+            if cfg.fee_col() {
+                alpha.push(Letter { fee: true, feek: 0, ..p1 });
+                alpha.push(Letter { fee: true, feek: 1, ..p0 });
+            }
+            let a = alpha.len() as u64;
+            let n_stmt: u64 = (0..=2).map(|n| statements_of_len(a, n)).sum();
+            let mut loaded = Loaded::new(next_id, &cfg);
+            next_id += 1;
+            for k in 0..n_stmt {
+                total_style += 1;
+                let (li, same) = decode_statement(k, a, 2);
+                let letters: Vec<Letter> = li.iter().map(|i| alpha[*i]).collect();
+                loaded.statement(ctx, &mut files, &letters, &same, &[]);
+            }
+        }
+    }
+    ctx.fact("preamble_config_x_statement", total_preamble);
+    ctx.fact("cell_spelling_config_x_statement", total_style);
     ctx.fact("charge_value_class_configurations", charge_configs);
     ctx.fact("charge_value_class_config_x_statement", total_charge);
     ctx.fact("configurations", cfgs.len() as u64);
